@@ -78,7 +78,10 @@ use autosar_data_specification::{AttributeSpec, CharacterDataSpec, ContentMode, 
 use fxhash::{FxBuildHasher, FxHashMap};
 use indexmap::IndexMap;
 pub use iterators::*;
+#[cfg(not(autosar_data_verif))]
 use parking_lot::RwLock;
+#[cfg(autosar_data_verif)]
+use crate::verif_shim::RwLock;
 use parser::ArxmlParser;
 use smallvec::SmallVec;
 use std::collections::HashSet;
@@ -95,6 +98,8 @@ mod elementraw;
 mod iterators;
 mod lexer;
 mod parser;
+#[cfg(autosar_data_verif)]
+pub mod verif_shim;
 
 // allow public access to the error sub-types
 pub use lexer::ArxmlLexerError;
